@@ -265,6 +265,9 @@ func TestC17(t *testing.T) {
 	st := newStats(t, "C17", "sequential: rapid-generated save/resave/remove/read sequences over 2-5 addresses on a fresh cache, listings of every address compared with a map model after every step; concurrent: rounds of 4-32 parallel saves of distinct transactions + removals of earlier ones + reads on shared addresses with varied GOMAXPROCS, listings compared at quiescence; non-trivial = sequence has a successful remove after a save (sequential) / every concurrent batch (overlapping ops on one address by construction); distinct by op-sequence / batch-shape fingerprint")
 	t.Run("sequential", func(t *testing.T) {
 		rapid.Check(t, func(rt *rapid.T) {
+			if pastSoftDeadline(st) {
+				return
+			}
 			c := c17Case{Wallets: rapid.IntRange(2, 5).Draw(rt, "wallets")}
 			n := rapid.IntRange(1, 40).Draw(rt, "n")
 			for i := 0; i < n; i++ {
